@@ -28,6 +28,57 @@ enum Op {
     Search { depth: u8, budget: Option<u64> },
 }
 
+/// Twin positions: (command, position) with a legal en-passant capture or castling move, and the
+/// same placement and side to move without that right (both valid positions).
+fn gen_twins(s: &mut Src) -> Option<(String, Pos, String, Pos)> {
+    for _ in 0..6 {
+        let base = if s.chance(50) { gen::g_small(s).0 } else { gen::g_mix(s).0 };
+        if s.chance(60) {
+            // en passant: play a double push after which the capture is legal
+            let pushes: Vec<refchess::Mv> = base
+                .legal_moves()
+                .into_iter()
+                .filter(|m| base.info(*m).double_push)
+                .filter(|m| {
+                    let q = base.make(*m);
+                    q.legal_moves().iter().any(|c| q.info(*c).ep)
+                })
+                .collect();
+            if pushes.is_empty() {
+                continue;
+            }
+            let m = pushes[s.below(pushes.len())];
+            let p1 = base.make(m);
+            if p1.legal_moves().is_empty() {
+                continue;
+            }
+            let cmd1 = if s.bool() { format!("position fen {} moves {}", eng_fen(&base), m.uci()) } else { format!("position fen {}", eng_fen(&p1)) };
+            let mut p2 = p1.clone();
+            p2.ep = None;
+            return Some((cmd1, p1, format!("position fen {}", eng_fen(&p2)), p2));
+        } else {
+            // castling: a legal castle, then the same placement without any right of the mover
+            if !base.legal_moves().iter().any(|m| base.info(*m).castle) {
+                continue;
+            }
+            let mut p2 = base.clone();
+            if base.stm == refchess::Color::W {
+                p2.castle[0] = false;
+                p2.castle[1] = false;
+            } else {
+                p2.castle[2] = false;
+                p2.castle[3] = false;
+            }
+            return Some((format!("position fen {}", eng_fen(&base)), base, format!("position fen {}", eng_fen(&p2)), p2));
+        }
+    }
+    None
+}
+
+fn eng_fen(p: &Pos) -> String {
+    crate::eng::fen(p)
+}
+
 fn part_a(bytes: &[u8], stats: &mut Stats) -> Verdict {
     let mut s = Src::new(bytes);
     let nops = 1 + s.below(12);
@@ -40,8 +91,25 @@ fn part_a(bytes: &[u8], stats: &mut Stats) -> Verdict {
     let mut log: Vec<Value> = Vec::new();
     // (base command, moves, position) that were current when the last ucinewgame was sent
     let mut saved: Option<(String, Vec<String>, Pos)> = None;
-    for _ in 0..nops {
-        let op = match s.weighted(&[8, 25, 17, 50, 6]) {
+    // Scripted opening of some cases: a position in which a move exists only because of a feature
+    // that the placement does not show (an en-passant right, a castling right) is searched; then
+    // its TWIN — same placement and side to move, the feature gone — is set on the same engine and
+    // searched no deeper.  Whatever the engine remembered about the first position must not leak
+    // into the answer for the second.
+    let mut scripted: std::collections::VecDeque<Op> = std::collections::VecDeque::new();
+    if s.chance(14) {
+        if let Some((cmd1, p1, cmd2, p2)) = gen_twins(&mut s) {
+            let d1 = 1 + s.below(4) as u8;
+            let d2 = 1 + s.below(d1 as usize) as u8;
+            scripted.push_back(Op::SetPos(cmd1, p1));
+            scripted.push_back(Op::Search { depth: d1, budget: None });
+            scripted.push_back(Op::SetPos(cmd2, p2));
+            scripted.push_back(Op::Search { depth: d2, budget: None });
+            stats.class("A_twin_positions_searched_on_one_engine");
+        }
+    }
+    for _ in 0..nops + scripted.len() {
+        let op = if let Some(o) = scripted.pop_front() { o } else { match s.weighted(&[8, 25, 17, 50, 6]) {
             0 => Op::NewGame,
             4 => match &saved {
                 Some((b, m, p)) => {
@@ -98,7 +166,7 @@ fn part_a(bytes: &[u8], stats: &mut Stats) -> Verdict {
                 };
                 Op::Search { depth, budget }
             }
-        };
+        } };
         let res = std::panic::catch_unwind(std::panic::AssertUnwindSafe(|| -> Result<Option<(Option<String>, u64, u64)>, ()> {
             match &op {
                 Op::NewGame => {
